@@ -1063,6 +1063,10 @@ func (r *Run) protectedPrefixTests(f *ssa.Function, member string) map[string]bo
 					}
 					work = append(work, item{tgt, it.depth})
 				case sc.String() == "strings.HasPrefix" && cc.Args[0] == it.v:
+					// a test in dead code (`false && HasPrefix(…)`) tests nothing
+					if lf := r.E.Facts(x.Parent(), core.Ctx{}); !lf.Live[x.Block()] {
+						continue
+					}
 					if k, ok := cc.Args[1].(*ssa.Const); ok && k.Value != nil && k.Value.Kind() == constant.String {
 						ff := r.E.Facts(x.Parent(), core.Ctx{})
 						if crefs := x.Referrers(); crefs != nil {
